@@ -13,6 +13,7 @@ operation leaves the deep observation unchanged; RecordPacker().pack(record) suc
 import datetime as _dtm
 import ipaddress as _ipm
 import json
+import os
 import math
 import pathlib
 import shlex
@@ -276,6 +277,17 @@ def gen_cases(rng, tier):
     for types in (["net.tcp.Port[]", "net.udp.Port[]"], ["net.udp.Port[]", "net.tcp.Port[]"], ["string[]", "wstring[]", "uri[]"],
                   ["uint16[]", "net.tcp.Port[]", "uint32[]"]):
         cases.append({"kind": "listcls", "types": types, "values": [I(80), I(443)] if "string[]" not in types else [S("a")]})
+    # --- histories in a FRESH interpreter whose very first construction of a type is a REFUSED one
+    for fields, args, ops in (
+            ([["boolean", "a"], ["boolean[]", "l"]], [NONE, ["list", []]],
+             [["assign", "a", I(2)], ["assign", "a", ["bool", 1]], ["assign", "l", ["list", [["bool", 1], ["bool", 0]]]], ["replace", [["a", ["bool", 1]]]]]),
+            ([["uint16", "a"], ["uint16[]", "l"]], [NONE, ["list", []]],
+             [["assign", "a", I(70000)], ["assign", "a", I(7)], ["assign", "l", ["list", [I(7), I(70000)]]], ["assign", "l", ["list", [I(7)]]]]),
+            ([["uint32", "a"], ["varint", "b"]], [NONE, NONE],
+             [["assign", "a", I(-1)], ["assign", "a", I(1)], ["assign", "b", S("x")], ["assign", "b", I(1)]]),
+            ([["digest", "d"]], [NONE], [["assign", "d", ["tuple", [S("zz"), NONE, NONE]]],
+                                         ["assign", "d", ["tuple", [S("d41d8cd98f00b204e9800998ecf8427e"), NONE, NONE]]]])):
+        cases.append({"kind": "seq", "fields": fields, "args": args, "ops": ops, "fresh": True})
     # --- fixed histories
     cases.append({"kind": "seq", "fields": [["boolean", "a"], ["uint16", "b"]], "args": [["bool", 1], I(5)],
                   "ops": [["assign", "a", F(0.5)], ["assign", "a", I(0)], ["assign", "b", I(65536)], ["assign", "b", I(65535)],
@@ -390,6 +402,19 @@ def run_real(case):
     from flow.record import RecordDescriptor
     from flow.record.base import fieldtype
     k = case["kind"]
+    if case.get("fresh"):
+        # the whole history runs in a FRESH interpreter (nothing was constructed before its first step)
+        import subprocess
+        import sys as _sys
+        verif = os.path.dirname(os.path.dirname(os.path.dirname(os.path.abspath(__file__))))
+        code = ("import sys, json; sys.path.insert(0, %r); sys.path.insert(0, %r)\n"
+                "from harness.props import C05\n"
+                "print('\\n' + json.dumps(C05.run_real(json.loads(sys.stdin.read()))))\n") % (verif, os.environ.get("VERIF_REPO", "/repo"))
+        p_ = subprocess.run([_sys.executable, "-c", code], input=json.dumps({k_: v_ for k_, v_ in case.items() if k_ != "fresh"}),
+                            capture_output=True, text=True, timeout=120, env=dict(os.environ, PYTHONDONTWRITEBYTECODE="1"))
+        if p_.returncode != 0:
+            raise RuntimeError("fresh interpreter failed: " + p_.stderr[-300:])
+        return json.loads(p_.stdout.strip().splitlines()[-1])
     if k == "grpflat":
         # a grouped record: every field of its FLAT descriptor holds a value of the type that descriptor declares
         from flow.record import GroupedRecord
